@@ -243,7 +243,7 @@ def law_vector(rng, fam, extreme=False):
         sg = math.sqrt(s2)
         mode = "tail" if extreme else rng.choice(["central", "central", "onesided", "narrow", "tail", "wide"])
         feats.append("window-" + mode)
-        q = lambda x: F(x).limit_denominator(20)
+        q = lambda x: F(x).limit_denominator(20) if x >= 0.5 or x <= -0.5 or x == 0 else F(x).limit_denominator(2000)
         if mode == "central":
             lo = mu - q(sg * rng.choice([0.5, 1, 2, 3]))
             hi = mu + q(sg * rng.choice([0.5, 1, 2, 3]))
